@@ -113,6 +113,13 @@ class Prop(BaseProp):
                     res.violate("variant-run-failed:hashseed", se[-300:], wit)
                 else:
                     compare(name, read_tree(out_dir(name)), ref)
+            # (b0) run from inside the input directory with the input spelled '.'
+            if not single:
+                o = runner.run_main(["."] + ["-o", out_dir("dot")] + flags, cwd=loc1, home=home)
+                if o.ok:
+                    compare("cwd-inside-input-spelled-dot", read_tree(out_dir("dot")), ref)
+                else:
+                    res.violate("variant-run-failed:dot", str(o.exc)[:200], wit)
             # (b) in-process, other cwd
             cwd = os.path.join(sb, "loc1")
             o = runner.run_main([os.path.relpath(target(loc1), cwd), "-o", out_dir("cwd")] + flags, cwd=cwd, home=home)
